@@ -139,7 +139,7 @@ func cmdCheck(args []string) {
 	}
 	// cover (vacuity) queries are obligations of kind "cover"
 	genT := time.Since(t0)
-	ors := dischargeAll(all, *timeout, 8)
+	ors := dischargeAll(all, *timeout, 14)
 	if *tier == "thorough" {
 		ors = confirmTwice(all, ors, *timeout)
 	}
@@ -238,8 +238,14 @@ func (run *checkRun) generate(en *Engine, p *PropSpec) []*Obligation {
 		}
 		keys := ci.Funcs
 		if len(keys) == 0 {
+			skip := map[string]bool{}
+			for _, e := range ci.Exclude {
+				skip[e] = true
+			}
 			for k := range pc.Funcs {
-				keys = append(keys, k)
+				if !skip[k] {
+					keys = append(keys, k)
+				}
 			}
 			sort.Strings(keys)
 		}
